@@ -847,4 +847,67 @@ theorem termGuard_of_stable (S : Schema) (sl : Slice) (hwf : sl.wf = true) (hst 
     have e2 : sl.openEnd = 0 := by omega
     simp [e1, e2]
 
+/-! ### the run hypothesis `unplacedWfRun` of the emitted-step theorems follows -/
+
+/-- a run of the loop that returns with the unplaced slice well-formed all along satisfies `fitLoopAll … wf` -/
+theorem fitLoopAll_of_wfWhile (S : Schema) : ∀ (fuel : Nat) (st st' : FitState), fitLoop S fuel st = .ok st' →
+    wfWhile S fuel st = true → fitLoopAll S (fun s => s.unplaced.wf) fuel st = some true
+  | 0, st, st', h, hw => by
+    unfold fitLoop at h
+    unfold wfWhile at hw
+    unfold fitLoopAll
+    split at h
+    · rename_i hsz
+      rw [if_pos hsz, hw]
+    · simp [throw, throwThe, MonadExceptOf.throw] at h
+  | fuel + 1, st, st', h, hw => by
+    unfold fitLoop at h
+    unfold wfWhile at hw
+    unfold fitLoopAll
+    rw [Bool.and_eq_true] at hw
+    split at h
+    · rename_i hsz
+      rw [if_pos hsz, hw.1]
+    · rename_i hsz
+      rw [if_neg hsz]
+      obtain ⟨st1, h1, h⟩ := FM.bind_ok h
+      have hw2 := hw.2
+      rw [if_neg hsz, h1] at hw2
+      simp only at hw2
+      rw [h1]
+      simp only
+      rw [fitLoopAll_of_wfWhile S fuel st1 st' h hw2, hw.1]
+      rfl
+
+/-- when `replace_step` returns and the unplaced slice stayed well-formed while the Fitter ran, the run hypothesis
+    `unplacedWfRun` of `fit_emits_wf` / `fit_emits_valid_payload` holds -/
+theorem unplacedWfRun_of_while (S : Schema) (doc : Node) (f t : Nat) (sl : Slice) (r : Option Step)
+    (hr : replaceStep S doc f t sl = .ok r) (hw : unplacedWfWhile S doc f t sl = true) :
+    unplacedWfRun S doc f t sl = true := by
+  unfold unplacedWfRun
+  unfold unplacedWfWhile at hw
+  unfold replaceStep at hr
+  split
+  · rfl
+  · rename_i hcond
+    rw [if_neg hcond] at hw hr
+    split
+    · rename_i rf rt hf ht
+      simp only [hf, ht] at hw hr
+      split
+      · rename_i htriv
+        simp only [htriv] at hw hr
+        split
+        · rename_i st0 h0
+          rw [h0] at hw
+          simp only at hw
+          unfold fitterFit at hr
+          rw [FM.bind_eq h0] at hr
+          obtain ⟨st1, h1, _⟩ := FM.bind_ok hr
+          rw [fitLoopAll_of_wfWhile S _ st0 st1 h1 hw]
+          rfl
+        · rfl
+      · rfl
+    · rfl
+
 end PM
